@@ -68,6 +68,10 @@ pub fn encode(name: &str, is_table: bool) -> String {
 pub fn is_valid(name: &str, is_table: bool) -> bool {
     if name.is_empty() || (!is_table && name.starts_with(TABLE_PREFIX)) {
         false
+    } else if !is_table && name.starts_with('\u{5}') {
+        // Names starting with U+0005 are reserved for the summary information
+        // and digital signature streams, which are not embedded binary streams.
+        false
     } else if name.chars().any(|chr| {
         // Characters in the ranges that the encoding itself uses would decode
         // to different names, and these separators are reserved by CFB.
